@@ -62,7 +62,10 @@ func h5Main(env *Env, c *H5Cfg, sh *h5Shared) {
 	logger := slog.New(rec.Handler())
 	m := metrics.NewInstance(prometheus.NewRegistry(), false, nil)
 	body := func(t *f1t.T) {
-		sh.started++
+		d := sh.beginBody(c)
+		if d > 0 {
+			time.Sleep(time.Duration(d))
+		}
 	}
 	scen := &scenarios.Scenario{Name: "h5", ScenarioFn: func(*f1t.T) f1t.RunFn { return body }}
 	as := workers.NewActiveScenario(scen, m, st, logger, log.NewSlogLogrusLogger(logger))
